@@ -219,6 +219,29 @@ func (e *specEnv) eval(x Expr, hint types.Type) sv {
 		case "*":
 			v := e.eval(n.X, nil)
 			return sv{Val: e.deref(v)}
+		case "&":
+			// &x: the address of a local variable that lives in a cell (address taken in the code)
+			id, ok := n.X.(*EIdent)
+			if !ok || e.fr == nil {
+				sfail("& is only supported on a local variable name inside a function contract")
+			}
+			var cell *ssa.Alloc
+			cnt := 0
+			for _, blk := range e.fr.fn.Blocks {
+				for _, ins := range blk.Instrs {
+					if a, ok := ins.(*ssa.Alloc); ok && a.Comment == id.Name {
+						cell = a
+						cnt++
+					}
+				}
+			}
+			if cnt != 1 {
+				sfail("&%s: no unique addressable local of that name", id.Name)
+			}
+			if v, ok := e.fr.vals[cell]; ok {
+				return sv{Val: Val{t: e.fr.term(v), typ: cell.Type()}}
+			}
+			sfail("&%s: the variable is not allocated yet at this point", id.Name)
 		}
 		sfail("unsupported unary %s", n.Op)
 	case *EBinary:
